@@ -59,6 +59,7 @@ fn main() {
     }
     sink.merge(struct_sweep(&run, &targets, &magic_recs, 0, &sfx, 48, &extra));
     // the cross product of the hello fields (version x magic random x session id x cipher kind x compression x extension block)
+    sink.merge(struct_sweep(&run, &targets, &wrapped(&cat::tls_records(2, false), 2), 0, &sfx, 16, &extra));
     for server in [true, false] {
         sink.merge(grid_sweep(&run, &targets, 64, &|c, n| cat::hello_grid(server, false, thorough, c, n), &|m| cat::record(0x16, 0x0303, |w| { w.append(m); }), &extra));
     }
